@@ -80,7 +80,21 @@ func findExtern(name string, fn *ssa.Function) externFn {
 	if h, ok := externs[name]; ok && h != nil {
 		return h
 	}
+	for _, p := range pureExternPrefixes {
+		if strings.HasPrefix(name, p) {
+			return extNoop
+		}
+	}
 	return nil
+}
+
+// Standard-library functions treated as pure: they read their arguments, write nothing the
+// caller can observe, do not panic, and return an unspecified (fresh) value.
+var pureExternPrefixes = []string{
+	"fmt.Sprint", "fmt.Print", "fmt.Fprint", "strings.", "strconv.", "(*encoding/base64.Encoding).EncodeToString",
+	"encoding/hex.EncodeToString", "time.", "(time.Time).", "(time.Duration).", "(*time.Timer).", "unicode.", "unicode/utf8.",
+	"(*strings.Builder).", "math.", "errors.Is", "errors.As", "errors.Unwrap", "os.Getenv", "runtime.", "(*sync.Once).",
+	"context.With", "context.Background", "context.TODO", "(*sync/atomic.", "sync/atomic.",
 }
 
 func findIfaceExtern(t types.Type, m *types.Func) ifaceExternFn {
